@@ -11,7 +11,7 @@ import (
 func init() {
 	register(&Prop{
 		ID:         "C15",
-		Decided:    "isolation and lifecycle only: (1) the partition key encoder of the MATCH_RECOGNIZE runner is typed and length-prefixed (uniquely decodable); (2) all partition state of cep.Engine (partMap, lru, seq) is accessed only under e.mu, the sweeper included; (3) per-partition state is reached only through getPartition(key): partMap is read/written only by getPartition and evictIfNeeded, and Process steps exactly the partition it looked up with the key it was given; (4) partitions are evicted only when lru.Len() > maxPart and the evicted one is lru.Back(); (5) Stop order: waitLifecycle -> cep.Stop -> engine.Flush -> synchronous flush delivery, flush rows projected like live matches (shared with C18); (5b) the scratch map that DEFINE/MEASURES evaluation takes from the process-wide pool is emptied before its first write (or before every exit), so no row's fields leak into the evaluation of another row, partition or instance; (6) the live path feeds the engine only rows that passed JOIN enrichment and WHERE, with the runner's own partition key. Also (match bookkeeping, structural necessary conditions only): the row number passed to step is a counter of the stepped partition (skipTo computes startSeq+offset); on every path through the loops over p.runs in step and sweep a run that may be accepting is recorded/kept unless hasAccept is false, a successor is accepting or the length guard is hit; partition fields are accessed under Engine.mu; in-place filtering of p.runs appends at most one element per element read.",
+		Decided:    "isolation and lifecycle only: (1) the partition key encoder of the MATCH_RECOGNIZE runner is typed and length-prefixed (uniquely decodable); (2) all partition state of cep.Engine (partMap, lru, seq) is accessed only under e.mu, the sweeper included; (3) per-partition state is reached only through getPartition(key): partMap is read/written only by getPartition and evictIfNeeded, and Process steps exactly the partition it looked up with the key it was given; (4) partitions are evicted only when lru.Len() > maxPart and the evicted one is lru.Back(); (5) Stop order: waitLifecycle -> cep.Stop -> engine.Flush -> synchronous flush delivery, flush rows projected like live matches (shared with C18); (5b) the scratch map that DEFINE/MEASURES evaluation takes from the process-wide pool is emptied before its first write (or before every exit), so no row's fields leak into the evaluation of another row, partition or instance; (6) the live path feeds the engine only rows that passed JOIN enrichment and WHERE, with the runner's own partition key. Also (match bookkeeping, structural necessary conditions only): the row number passed to step is a counter of the stepped partition (skipTo computes startSeq+offset); on every path through the loops over p.runs in step and sweep a run that may be accepting is recorded/kept unless hasAccept is false, a successor is accepting or the length guard is hit; partition fields are accessed under Engine.mu; in-place filtering of p.runs appends at most one element per element read. Also: a pending start is emitted only after an ordered comparison with the surviving runs' starts (leftmost first); an in-place compaction is committed on every path.",
 		NotDecided: "apart from the two bookkeeping conditions above, everything about which matches are reported: NFA construction, greedy/reluctant choice, SKIP modes, WITHIN, MEASURES, MATCH_NUMBER — match semantics are value-level.",
 		Run:        runC15,
 	})
